@@ -185,7 +185,7 @@ func typeOfPushed(qm ssa.Value) (int64, bool) {
 // c03TypeQueue: O1b + O1d
 func c03TypeQueue(a *Anchors, r *core.Report, pushes []mailboxPush) {
 	rule := "C03.O1b type->queue"
-	r.Floor(rule, 15)
+	r.Floor(rule, 18)
 	tnames := enumConsts(a.P.Named("gen", "MailboxMessageType"))
 	seq := map[string]int{}
 	for _, mp := range pushes {
@@ -441,7 +441,7 @@ func c03Dequeue(a *Anchors, r *core.Report) {
 // c03QueueDiscipline: O3
 func c03QueueDiscipline(a *Anchors, r *core.Report) {
 	rule := "C03.O3 queue-discipline"
-	r.Floor(rule, 10)
+	r.Floor(rule, 18)
 	// every use of the addresses &q.head, &q.tail, &item.next in package lib
 	type use struct {
 		f     *ssa.Function
